@@ -157,23 +157,48 @@ def r2_one_per_node(chk, cf):
 
 # ---------------------------------------------------------------------------
 def _display_table(chk, pf):
-    ms = [m for m in walk_no_nested(pf.node) if isinstance(m, ast.Match) and "Display" in norm(m.subject)]
+    """display literal -> (first index, second index, sign, call).  Understands `match bd.get("Display")` and
+    `display = bd.get("Display"); match display`, or-patterns, and a hoisted conditional swap of the two indices
+    (`if display in (...): i1, i2 = i2, i1`) before the dispatch."""
+    asg = assignments(pf.node)
+    dnames = {n for n, vals in asg.items() for v in vals if isinstance(v, ast.AST) and "Display" in norm(v) and ".get(" in norm(v)}
+    ms = [m for m in walk_no_nested(pf.node) if isinstance(m, ast.Match) and ("Display" in norm(m.subject) or norm(m.subject) in dnames)]
     chk.require(len(ms) == 1, "_parse_fragment: Display dispatch not found")
+    m = ms[0]
+    # hoisted swap
+    swap_for = set()
+    swap_names = None
+    for g in walk_no_nested(pf.node):
+        if isinstance(g, ast.If) and g.lineno < m.lineno and isinstance(g.test, ast.Compare) and isinstance(g.test.ops[0], ast.In) and (norm(g.test.left) in dnames or "Display" in norm(g.test.left)):
+            sw = [b for b in g.body if isinstance(b, ast.Assign) and isinstance(b.targets[0], ast.Tuple) and isinstance(b.value, ast.Tuple)
+                  and [norm(x) for x in b.targets[0].elts] == [norm(x) for x in reversed(b.value.elts)] and len(b.value.elts) == 2]
+            if sw and not g.orelse:
+                try:
+                    swap_for |= set(ast.literal_eval(g.test.comparators[0]))
+                except Exception:
+                    raise AnalysisError("_parse_fragment: swap condition is not a literal collection")
+                swap_names = [norm(x) for x in sw[0].targets[0].elts]
     rows = {}
-    for c in ms[0].cases:
-        if not (isinstance(c.pattern, ast.MatchValue) and isinstance(c.pattern.value, ast.Constant)):
+    for c in m.cases:
+        pats = c.pattern.patterns if isinstance(c.pattern, ast.MatchOr) else [c.pattern]
+        lits = [p.value.value for p in pats if isinstance(p, ast.MatchValue) and isinstance(p.value, ast.Constant)]
+        if not lits:
             continue
         calls = [x for b in c.body for x in walk_no_nested(b) if isinstance(x, ast.Call) and call_name(x) == "_cdxml_3dify_"]
         if len(calls) != 1:
-            raise AnalysisError(f"Display arm {c.pattern.value.value!r}: expected one _cdxml_3dify_ call")
+            raise AnalysisError(f"Display arm {lits}: expected one _cdxml_3dify_ call")
         k = calls[0]
         sg = kwarg(k, "sign")
         try:
             sval = ast.literal_eval(sg) if sg is not None else 1
         except Exception:
-            raise AnalysisError(f"Display arm {c.pattern.value.value!r}: sign is not a literal")
-        rows[c.pattern.value.value] = (norm(k.args[1]), norm(k.args[2]), sval, k)
-    return ms[0], rows
+            raise AnalysisError(f"Display arm {lits}: sign is not a literal")
+        for lit in lits:
+            a, b = norm(k.args[1]), norm(k.args[2])
+            if lit in swap_for and swap_names and {a, b} == set(swap_names):
+                a, b = b, a
+            rows[lit] = (a, b, sval, k)
+    return m, rows
 
 
 def r3_wedge_table(chk, cf):
